@@ -57,15 +57,27 @@ pub struct RunOut {
 
 /// Runs a binary with a generous wall-clock watchdog (a firing watchdog is inconclusive, never a verdict).
 pub fn run(bin: &Path, args: &[String]) -> Option<RunOut> {
-    use std::io::Read;
+    run_with_stdin(bin, args, None)
+}
+
+/// The same with bytes fed to the child's standard input (instances are far below the pipe capacity,
+/// so they are written in one go before waiting): `-f /dev/stdin` makes the instance a *pipe*, a
+/// readable file whose reported size is 0.
+pub fn run_with_stdin(bin: &Path, args: &[String], input: Option<&[u8]>) -> Option<RunOut> {
+    use std::io::{Read, Write};
     let mut child = Command::new(bin)
         .args(args)
         .env("RUST_BACKTRACE", "0")
-        .stdin(std::process::Stdio::null())
+        .stdin(if input.is_some() { std::process::Stdio::piped() } else { std::process::Stdio::null() })
         .stdout(std::process::Stdio::piped())
         .stderr(std::process::Stdio::piped())
         .spawn()
         .ok()?;
+    if let Some(bytes) = input {
+        if let Some(mut si) = child.stdin.take() {
+            let _ = si.write_all(bytes);
+        }
+    }
     // outputs here are a few lines: far below the pipe capacity, so waiting first is safe
     let t0 = std::time::Instant::now();
     let status = loop {
@@ -349,7 +361,42 @@ fn success_runs(ctx: &mut Ctx, rng: &mut Rng, dir: &Path) {
             } else {
                 ctx.count("success_runs/no-logging-level-flag");
             }
-            if let Some(out) = run(&crustabri, &args) {
+            // one run in twelve reads the instance from a named pipe instead of a regular file: a readable
+            // file whose reported size is 0 and that can be read only once
+            let via_pipe = inst.bytes.len() < 32_768 && rng.pct(8);
+            let mut feeder: Option<(std::thread::JoinHandle<()>, PathBuf)> = None;
+            if via_pipe {
+                let fifo = dir.join(if inst.apx { "inst-fifo.apx" } else { "inst-fifo.af" });
+                let _ = std::fs::remove_file(&fifo);
+                let c = std::ffi::CString::new(fifo.to_string_lossy().as_bytes()).unwrap();
+                if unsafe { libc::mkfifo(c.as_ptr(), 0o600) } == 0 {
+                    let bytes = inst.bytes.clone();
+                    let fp = fifo.clone();
+                    // opening for writing blocks until the binary opens the pipe for reading
+                    let h = std::thread::spawn(move || {
+                        use std::io::Write;
+                        if let Ok(mut f) = std::fs::OpenOptions::new().write(true).open(&fp) {
+                            let _ = f.write_all(&bytes);
+                        }
+                    });
+                    args[2] = fifo.to_string_lossy().to_string();
+                    feeder = Some((h, fifo));
+                    ctx.count("success_runs/instance-read-from-a-named-pipe");
+                }
+            }
+            let ran = run(&crustabri, &args);
+            if let Some((h, fifo)) = feeder {
+                // a binary that never opened the pipe would leave the feeder blocked: open it ourselves
+                if !h.is_finished() {
+                    use std::os::unix::fs::OpenOptionsExt;
+                    let reader = std::fs::OpenOptions::new().read(true).custom_flags(libc::O_NONBLOCK).open(&fifo);
+                    std::thread::sleep(std::time::Duration::from_millis(50));
+                    drop(reader);
+                }
+                let _ = h.join();
+                let _ = std::fs::remove_file(&fifo);
+            }
+            if let Some(out) = ran {
                 ctx.eval();
                 ctx.count(&format!("success_runs/crustabri/{}", q));
                 if logging_on {
